@@ -15,8 +15,8 @@ theorem any_name_false {gs : List GroupInfo} {n : Nat × Nat} (h : gs.any (fun x
   have := List.any_eq_false.1 h g hg
   simp at this
 
-theorem loadGroups_nodup {fixed env pkg pfx file rejected} : ∀ {gs : List GroupDecl} {res res' : RuleSet},
-    loadGroups fixed env pkg pfx file rejected res gs = .ok res' → NodupG res.groups → NodupG res'.groups
+theorem loadGroups_nodup {fixed env own pkg pfx file rejected} : ∀ {gs : List GroupDecl} {res res' : RuleSet},
+    loadGroups fixed env own pkg pfx file rejected res gs = .ok res' → NodupG res.groups → NodupG res'.groups
   | [], res, res', h, hn => by simp [loadGroups] at h; subst h; exact hn
   | g :: gs, res, res', h, hn => by
     unfold loadGroups at h
@@ -179,7 +179,7 @@ theorem unitOK_allSome {pfx rejected u} (h : UnitOK pfx rejected u) : AllSome (a
   exact h.2 g hg r hr
 
 theorem reqOK_allSome {r : Req} (h : ReqOK r) : AllSome (accepted r) := by
-  obtain ⟨_, hu, hb⟩ := h
+  obtain ⟨hu, hb⟩ := h
   unfold accepted
   refine (unitOK_allSome hu).append ?_
   intro x hx
@@ -263,7 +263,20 @@ theorem ok_collisionFree {e : Engine} {u : List SGroup} {r : Req} (hv : View e u
 
 /-! ### a redefinition error always comes from a repeated accepted name -/
 
-theorem getFuncOpt_not_redef {fixed env pkg o} : getFuncOpt fixed env pkg o ≠ .err .redef := by
+theorem getFunc_not_redef {fixed env k} : getFunc fixed env k ≠ .err .redef := by
+  intro hg
+  unfold getFunc at hg
+  split at hg
+  · split at hg <;> cases hg
+  · split at hg
+    · cases hg
+    · split at hg <;> cases hg
+
+theorem ownFunc_not_redef {own n} : ownFunc own n ≠ .err .redef := by
+  unfold ownFunc
+  split <;> simp
+
+theorem getFuncOpt_not_redef {fixed env own pkg o} : getFuncOpt fixed env own pkg o ≠ .err .redef := by
   unfold getFuncOpt
   split
   · simp
@@ -271,15 +284,12 @@ theorem getFuncOpt_not_redef {fixed env pkg o} : getFuncOpt fixed env pkg o ≠ 
     · simp
     · rename_i e hg
       intro h; cases h
-      unfold getFunc at hg
-      split at hg
-      · split at hg <;> cases hg
-      · split at hg
-        · cases hg
-        · split at hg <;> cases hg
+      cases fixed
+      · exact getFunc_not_redef (by simpa using hg)
+      · exact ownFunc_not_redef (by simpa using hg)
     · simp
 
-theorem loadRule_not_redef {fixed env pkg g r} : loadRule fixed env pkg g r ≠ .err .redef := by
+theorem loadRule_not_redef {fixed env own pkg g r} : loadRule fixed env own pkg g r ≠ .err .redef := by
   unfold loadRule
   split
   · simp
@@ -289,7 +299,7 @@ theorem loadRule_not_redef {fixed env pkg g r} : loadRule fixed env pkg g r ≠ 
     · rename_i e he; intro h; cases h; exact getFuncOpt_not_redef he
     · split <;> simp
 
-theorem loadRules_not_redef {fixed env pkg g} : ∀ (rs : List RuleDecl), loadRules fixed env pkg g rs ≠ .err .redef
+theorem loadRules_not_redef {fixed env own pkg g} : ∀ (rs : List RuleDecl), loadRules fixed env own pkg g rs ≠ .err .redef
   | [] => by simp [loadRules]
   | r :: rs => by
     unfold loadRules
@@ -300,8 +310,8 @@ theorem loadRules_not_redef {fixed env pkg g} : ∀ (rs : List RuleDecl), loadRu
       · simp
       · exact loadRules_not_redef rs
 
-theorem loadGroups_redef {env pkg pfx file rejected} : ∀ {gs : List GroupDecl} {res : RuleSet},
-    loadGroups true env pkg pfx file rejected res gs = .err .redef →
+theorem loadGroups_redef {env own pkg pfx file rejected} : ∀ {gs : List GroupDecl} {res : RuleSet},
+    loadGroups true env own pkg pfx file rejected res gs = .err .redef →
     ¬ (res.groups.map (·.name) ++ (acceptedDecls pfx rejected gs).map (fun g => (pfx, g.name))).Nodup
   | [], res, h => by simp [loadGroups] at h
   | g :: gs, res, h => by
